@@ -596,6 +596,44 @@ def c16(ctx):
     for fn, who in todo:
         n6 += lazy_consumers(ctx, "C16.R6", fn, who)
     rep.floor("C16.R6", n6, 3, "lazily mapped visits")
+    rep.rule("C16.R8", "projection helpers are total: a helper of the syntax tree (InputDest::opt, WithRange::as_ref, ExpressionList::iter ..) through "
+             "which a traversal method reaches a child decides only on its own variant, never on the shape of the child it hands on -- "
+             "table computed by KIND; a helper that returns the child for some shapes only hides the others from every visitor")
+    n8 = 0
+    helpers = {}
+    for fn, who in todo:
+        lab8 = Labels(F, fn, {(fn.path, 2): {()}}, extend=extend_label)
+        for body in F.with_closures(fn):
+            for bi, t in body.calls():
+                c = t["callee"]
+                if "indirect" in c or is_visit_call(t):
+                    continue
+                h = F.fn(c.get("resolved") or c.get("def") or "")
+                if h is None or not h.mir or h.is_derived() or h.kind == "closure" or not h.file.endswith("frontend/ast.rs"):
+                    continue
+                if t["args"] and lab8.op_labels(body, t["args"][0]):
+                    helpers.setdefault(h.path, (h, fn))
+    from .. import kind as _kind
+    for hp, (h, user) in sorted(helpers.items()):
+        n8 += 1
+        rep.analysed(h)
+        I8 = _kind.Interp(F)
+        args8 = [("sym", "self")] + [("sym", "a%d" % i) for i in range(2, h.argc + 1)]
+        deep = set()
+        try:
+            outs8 = I8.run(h, args8)
+        except Exception as e:  # noqa: BLE001
+            outs8 = []
+            deep.add("analysis error %r" % (e,))
+        for o in outs8:
+            for c_ in o.conds:
+                if isinstance(c_[0], tuple) and c_[0] and c_[0][0] == "is" and c_[0][1] == ("sym", "self"):
+                    continue
+                deep.add(str(c_[0])[:90])
+        ok = not deep and bool(outs8)
+        rep.ob("C16.R8", "projection-total::" + hp, ok, "" if ok else "%s (used by %s) decides on %s: it hands the child on only for some shapes of it" % (hp, user.path, sorted(deep)[:2]), h.loc(),
+               how="decides on its own variant only (%d outcomes)" % len(outs8))
+    rep.floor("C16.R8", n8, 1, "projection helpers used by the traversal")
     rep.rule("C16.R7", "children in field order: for two visitable children of one node (same variant), the call site that visits the field "
              "declared later is never followed by the one that visits the field declared earlier (closures are placed where they "
              "run: eager combinators at their call, lazily mapped closures at the consumer of the iterator)")
